@@ -3,7 +3,7 @@
 From Coq Require Import ZArith Reals Lia Lra List Bool Sorting.Permutation Sorting.Sorted.
 From Coq Require Import PrimFloat FloatOps SpecFloat.
 From EsVerif.Common Require Import Base.
-From EsVerif.C05 Require Import Model Spec PassProofs Proofs FloatFacts SortFacts.
+From EsVerif.C05 Require Import Model Spec PassProofs Proofs PassExt FloatFacts SortFacts.
 
 Notation float := PrimFloat.float.
 
@@ -130,6 +130,98 @@ Section Data.
     - apply (sorted_const _ int64_min). intros k _. apply E.
   Qed.
 
+  Lemma limits_nonempty s lo hi dmin dmax w : limits x s lo hi = Ok (dmin, dmax, w) -> w <> [].
+  Proof.
+    unfold limits. intros E. destruct s as [|k0 t]; destruct lo as [l|], hi as [h|]; cbn -[filter last] in E;
+      try discriminate E; try (destruct (filter _ _) eqn:F; [discriminate E|]); injection E as <- <- <-; discriminate.
+  Qed.
+
+  Lemma up_bin_range nbin b : 0 <= nbin -> 0 <= up_bin nbin b <= nbin.
+  Proof. intros Hn. unfold up_bin, valid_bin. destruct ((0 <=? b) && (b <? nbin)) eqn:V; lia. Qed.
+
+  Lemma sorted_up_inf dmin bs nb w :
+    0 <= nb -> posinf_f bs = true -> finite_f dmin = true ->
+    (forall k, In k w -> inr k /\ PrimFloat.leb dmin (fget x k) = true) ->
+    ordered x w -> Sorted Z.le (map (fun k => up_bin nb (binnum x dmin bs k)) w).
+  Proof.
+    intros Hn PI Fm. induction w as [|a t IH]; intros Hw Ow; cbn [map]; constructor.
+    - apply IH; [intros k Hk; apply Hw; right; exact Hk|apply Ow].
+    - destruct t as [|b t']; cbn [map]; constructor.
+      destruct (div_posinf (PrimFloat.sub (fget x b) dmin) bs PI) as [(Fb & Tb & _)|(_ & Tb & _)].
+      + (* b has a finite difference to min: so has a *)
+        destruct (Hw a (or_introl eq_refl)) as [Ra La].
+        destruct (Hw b (or_intror (or_introl eq_refl))) as [Rb _].
+        assert (Fa : finite_f (fget x a) = true) by (apply (fget_fin x x_fin); exact Ra).
+        assert (Fbv : finite_f (fget x b) = true) by (apply (fget_fin x x_fin); exact Rb).
+        assert (Lab : (rv (fget x a) <= rv (fget x b))%R).
+        { apply (ordered_values_le x x_fin a (b :: t') b); [intros j Hj; apply Hw; exact Hj|exact Ow|left; reflexivity]. }
+        apply (leb_R _ _ Fm Fa) in La.
+        destruct (sub_facts dmin (fget x b) (fget x a) Fm Fbv Fa Fb (conj La Lab)) as (Fsa & _).
+        destruct (div_posinf (PrimFloat.sub (fget x a) dmin) bs PI) as [(_ & Ta & _)|(Na & _)]; [|congruence].
+        unfold binnum. rewrite Ta, Tb. lia.
+      + unfold binnum at 2. rewrite Tb.
+        replace (up_bin nb int64_min) with nb by (unfold up_bin, valid_bin, int64_min; destruct (_ && _) eqn:V; lia).
+        apply up_bin_range. exact Hn.
+  Qed.
+
+  (* an infinite bin size: data with a finite difference to min go to bin 0, the others are not counted *)
+  Theorem contracts_w_hold_inf eng lo hi m o :
+    finite_opt lo = true -> finite_opt hi = true ->
+    histogram eng x lo hi m = Ok o -> posinf_f (p_bsize (o_params o)) = true ->
+    contracts_w x lo hi o.
+  Proof.
+    intros Flo Fhi H PI. unfold histogram in H.
+    destruct (limits x (argsort x) lo hi) as [[[dmin dmax] w]|] eqn:L; [|discriminate].
+    destruct (derive dmin dmax m) as [[bs nb]|]; [|discriminate].
+    destruct (nb <? 0) eqn:En; [discriminate|].
+    destruct (match eng with EngC => chist (binnum x dmin bs) nb w | EngPy => pyhist (binnum x dmin bs) nb w end) as [hist rev].
+    injection H as <-. cbn [o_params o_sort o_wsort p_dmin p_bsize p_nbin] in *.
+    destruct (limits_facts lo hi dmin dmax w Flo Fhi L) as (Fm & FM & Ew & Bw).
+    assert (Rw : forall k, In k w -> inr k).
+    { intros k Hk. rewrite Ew in Hk. apply filter_In in Hk. apply (argsort_in_range x). tauto. }
+    assert (Ow : ordered x w).
+    { rewrite Ew. apply (ordered_filter x). apply (argsort_ordered x x_fin). }
+    unfold contracts_w. cbn [o_params o_sort o_wsort p_dmin p_bsize p_nbin].
+    split; [apply (argsort_ordered x x_fin)|]. split; [exact Ew|]. split.
+    - intros k _. unfold binnum, bin_index.
+      destruct (div_posinf (PrimFloat.sub (fget x k) dmin) bs PI) as [(_ & -> & ->)|(_ & -> & ->)]; reflexivity.
+    - apply sorted_up_inf; auto; [lia|]. intros k Hk. split; [apply Rw; exact Hk|apply (Bw k Hk)].
+  Qed.
+
+  (* binsize mode: whenever the model accepts a finite positive bin size, the bin specification is sane *)
+  Theorem binsize_mode_params_ok eng lo hi b o :
+    finite_opt lo = true -> finite_opt hi = true ->
+    histogram eng x lo hi (ByBinsize b) = Ok o -> finite_f b = true -> PrimFloat.ltb 0 b = true ->
+    params_ok (o_params o) = true.
+  Proof.
+    intros Flo Fhi H Fb Pb. unfold histogram in H.
+    destruct (limits x (argsort x) lo hi) as [[[dmin dmax] w]|] eqn:L; [|discriminate].
+    cbn [derive] in H.
+    destruct (f2z_trunc (PrimFloat.div (PrimFloat.sub dmax dmin) b) + 1 <? 0) eqn:En; [discriminate|].
+    destruct (match eng with EngC => chist _ _ w | EngPy => pyhist _ _ w end) as [hist rev].
+    injection H as <-. cbn [o_params].
+    destruct (limits_facts lo hi dmin dmax w Flo Fhi L) as (Fm & FM & Ew & Bw).
+    assert (Lmm : (rv dmin <= rv dmax)%R).
+    { pose proof (limits_nonempty _ _ _ _ _ _ L) as NE. destruct w as [|k0 w']; [congruence|].
+      destruct (Bw k0 (or_introl eq_refl)) as [L1 L2].
+      assert (F0 : finite_f (fget x k0) = true).
+      { apply (fget_fin x x_fin). apply (argsort_in_range x).
+        assert (I : In k0 (k0 :: w')) by (left; reflexivity). rewrite Ew in I.
+        apply filter_In in I. tauto. }
+      apply (leb_R _ _ Fm F0) in L1. apply (leb_R _ _ F0 FM) in L2. lra. }
+    set (D := PrimFloat.sub dmax dmin) in *. set (q := PrimFloat.div D b) in *.
+    assert (Fq : finite_f q = true).
+    { destruct (finite_f q) eqn:E; [reflexivity|]. rewrite (trunc_nonfinite q E) in En. unfold int64_min in En. lia. }
+    assert (FD : finite_f D = true).
+    { destruct (finite_f D) eqn:E; [reflexivity|]. unfold q in Fq. rewrite (div_nonfinite D b E) in Fq. discriminate. }
+    destruct (sub_facts dmin dmax dmax Fm FM FM FD (conj Lmm (Rle_refl _))) as (_ & _ & D0 & _).
+    pose proof Pb as Pb'. apply (ltb_R _ _ finite_zero Fb) in Pb'. rewrite rv_zero in Pb'.
+    destruct (div_facts D D b FD FD Fb (conj D0 (Rle_refl _)) Pb' Fq) as (_ & Q0 & _).
+    assert (Q1 : (rv q < IZR two63Z)%R) by (apply trunc_not_min; [lia|exact Fq|exact Q0]).
+    unfold params_ok. cbn [p_dmin p_dmax p_bsize]. fold D q. rewrite FD, Fb, Pb, Fq. cbn [andb].
+    apply (ltb_R _ _ Fq finite_two63). rewrite rv_two63. exact Q1.
+  Qed.
+
   (* the property on the data themselves, no monitored hypothesis left *)
   Theorem holds_finite eng lo hi m o :
     finite_opt lo = true -> finite_opt hi = true ->
@@ -179,4 +271,37 @@ Proof.
   unfold histogram_api in H. destruct (resolve a k nb) as [m|].
   - apply (model_meets_spec eng x lo hi m o H). apply (contracts_hold_zero x Fx eng lo hi m o Flo Fhi H ZB).
   - destruct (limits x (argsort x) lo hi); discriminate.
+Qed.
+
+(* every finite input with a bin specification that is sane (params_ok), zero or +infinite *)
+Theorem api_holds_finite_total eng a x lo hi k nb o :
+  forallb finite_f x = true -> finite_opt lo = true -> finite_opt hi = true ->
+  histogram_api eng a x lo hi k nb = Ok o -> spec_ok2 (o_params o) = true ->
+  hist_ok x lo hi (p_dmin (o_params o)) (p_bsize (o_params o)) (p_nbin (o_params o)) (o_hist o) (o_rev o).
+Proof.
+  intros Fx Flo Fhi H SOK. unfold spec_ok2 in SOK. apply orb_true_iff in SOK.
+  destruct SOK as [SOK|PI]; [apply (api_holds_finite_all eng a x lo hi k nb o Fx Flo Fhi H SOK)|].
+  unfold histogram_api in H. destruct (resolve a k nb) as [m|].
+  - apply (model_meets_spec_w eng x lo hi m o H). apply (contracts_w_hold_inf x Fx eng lo hi m o Flo Fhi H PI).
+  - destruct (limits x (argsort x) lo hi); discriminate.
+Qed.
+
+(* binsize mode needs no side condition at all: any bin size > 0 (finite or infinite), any finite data
+   and limits -- if the model returns arrays, they satisfy the property *)
+Theorem holds_binsize_mode eng x lo hi b o :
+  forallb finite_f x = true -> finite_opt lo = true -> finite_opt hi = true ->
+  PrimFloat.ltb 0 b = true ->
+  histogram eng x lo hi (ByBinsize b) = Ok o ->
+  hist_ok x lo hi (p_dmin (o_params o)) (p_bsize (o_params o)) (p_nbin (o_params o)) (o_hist o) (o_rev o).
+Proof.
+  intros Fx Flo Fhi Pb H.
+  assert (Eb : p_bsize (o_params o) = b).
+  { unfold histogram in H. destruct (limits x (argsort x) lo hi) as [[[dmin dmax] w]|]; [|discriminate].
+    cbn [derive] in H. destruct (_ <? 0); [discriminate|].
+    destruct (match eng with EngC => chist _ _ w | EngPy => pyhist _ _ w end). injection H as <-. reflexivity. }
+  destruct (pos_finite_or_inf b Pb) as [Fb|PI].
+  - apply (holds_finite x Fx eng lo hi (ByBinsize b) o Flo Fhi H).
+    apply (binsize_mode_params_ok x Fx eng lo hi b o Flo Fhi H Fb Pb).
+  - apply (model_meets_spec_w eng x lo hi (ByBinsize b) o H).
+    apply (contracts_w_hold_inf x Fx eng lo hi (ByBinsize b) o Flo Fhi H). rewrite Eb. exact PI.
 Qed.
